@@ -128,6 +128,38 @@ class Run:
             self.cvc5_recheck(q)
         return q
 
+    def decide_many(self, common, goals, note='', timeout=None):
+        """many small queries sharing the assumptions `common`: one incremental z3 solver, push/pop per goal.
+        goals: [(qid, [formulas], note)].  Returns {qid: (verdict, model|None)}."""
+        timeout = timeout or self.timeout
+        s = z3.Solver()
+        s.set('timeout', int(timeout * 1000))
+        for f in common:
+            if f is not True:
+                s.add(zb(f))
+        out = {}
+        for qid, fs, nt in goals:
+            t0 = time.time()
+            s.push()
+            for f in fs:
+                s.add(zb(f))
+            r = s.check()
+            verdict = 'unsat' if r == z3.unsat else ('sat' if r == z3.sat else 'unknown')
+            model = s.model() if r == z3.sat else None
+            s.pop()
+            dt = time.time() - t0
+            self.solver_time += dt
+            self.queries.append({'id': qid, 'kind': 'smt-incremental', 'verdict': verdict, 'solver': 'z3 %s (incremental, push/pop)' % z3.get_version_string(),
+                                 'seconds': round(dt, 3), 'size_chars': None, 'note': nt or note})
+            if verdict == 'unknown':
+                self.inconclusive.append('query %s: no verdict within %ss' % (qid, timeout))
+            elif self.tier == 'thorough' and os.environ.get('VERIF_CVC5_ALL') == '1':
+                q = solve.Query(qid, list(common) + list(fs), 'smt', nt)
+                q.verdict = verdict
+                self.cvc5_recheck(q)
+            out[qid] = (verdict, model)
+        return out
+
     def cvc5_recheck(self, q, timeout=120):
         r = solve.cvc5_check(q, timeout)
         self.cvc5['checked'] += 1
